@@ -279,7 +279,7 @@ pub fn cases(seed: u64, thorough: bool, faults: &[Value]) -> Vec<LCase> {
             let mut k = 0;
             while k < n { muts.push((format!("trunc:{k}"), payload[..k].to_vec())); k += if k < 120 || k + 40 > n { 1 } else { stride }; }
             for off in 0..n.min(72) {
-                for val in [0u8, 1, 0x7F, 0x80, 0xFF] { if payload[off] != val { let mut b = payload.clone(); b[off] = val; muts.push((format!("byte:{off}={val}"), b)); } }
+                for val in [0u8, 1, 2, 3, 4, 0x7F, 0x80, 0xFF] { if payload[off] != val { let mut b = payload.clone(); b[off] = val; muts.push((format!("byte:{off}={val}"), b)); } }
                 if off + 4 <= n { for val in [0xFFFF_FFFFu32, 0x7FFF_FFFF, 0x8000_0000, 0x0001_0000] { let mut b = payload.clone(); b[off..off + 4].copy_from_slice(&val.to_le_bytes()); muts.push((format!("u32:{off}={val}"), b)); } }
             }
             for i in 0..(if thorough { 200 } else { 30 }) {
@@ -292,6 +292,23 @@ pub fn cases(seed: u64, thorough: bool, faults: &[Value]) -> Vec<LCase> {
                 let mut cs = chunks.clone();
                 cs[ci].1 = b;
                 out.push(LCase { ext: "icy".into(), seed: s.name.clone(), mutation: format!("chunk:{kw}:{m}"), bytes: crate::unicode::write_chunks(&cs) });
+            }
+            // composed faults (the chunk-level analogue of Loader.tla's PairFaults): one header byte of a LAYER_n record set to a
+            // small enumeration value or an extreme, AND a continuation chunk `LAYER_n~1` present (the writer only produces
+            // continuation chunks above 3 MB, the reader accepts them at any size and treats them by the layer's role / mode)
+            if kw.starts_with("LAYER_") && !kw.contains('~') {
+                let tails: [Vec<u8>; 3] = [vec![], payload[payload.len().saturating_sub(24)..].to_vec(), vec![0x00, 0x80, 65, 7, 0, 0, 0xFF, 0xFF]];
+                for off in 0..n.min(72) {
+                    for val in [0u8, 1, 2, 3, 4, 0x7F, 0x80, 0xFF] {
+                        if payload[off] == val && val != 0 { continue; }
+                        for (ti, tail) in tails.iter().enumerate() {
+                            let mut cs = chunks.clone();
+                            cs[ci].1[off] = val;
+                            cs.insert(ci + 1, (format!("{kw}~1"), tail.clone()));
+                            out.push(LCase { ext: "icy".into(), seed: s.name.clone(), mutation: format!("chunk:{kw}:byte:{off}={val}+continuation{ti}"), bytes: crate::unicode::write_chunks(&cs) });
+                        }
+                    }
+                }
             }
             // structural: chunk dropped, duplicated, moved to the front, renamed to a continuation / out-of-range layer
             let mut cs = chunks.clone(); cs.remove(ci);
